@@ -160,7 +160,11 @@ def check_class(name, cls, tier, rng):
                 rhs[...] = us - factor * np.asarray(impl_part(fs))
                 guess = P.dtype_u(P.u_exact(t))
                 rhs_c, guess_c = np.array(rhs), np.array(guess)
+                wc = getattr(P, 'work_counters', {}).get('newton')
+                n_before = wc.niter if wc is not None else 0
                 sol = P.solve_system(rhs, factor, guess, t)
+                if wc is not None and getattr(P, 'newton_maxiter', None) is not None and wc.niter - n_before >= P.newton_maxiter:
+                    continue  # the class reports non-convergence of its Newton iteration (warning / log): not a silent contract violation
             except Exception as e:
                 fails.append(f'solve_system(factor={factor}, t={t}) raised {type(e).__name__}: {str(e)[:60]}')
                 continue
